@@ -59,7 +59,7 @@ def session(args):
             eng.setoption(k, v)
         eng.isready()
         for fen, go in jobs:
-            stop_after = 0.05 if "infinite" in go else None
+            stop_after = (0.0 if " searchmoves " in go and go.startswith("go infinite") else 0.05) if "infinite" in go else None
             try:
                 if " ponder " in go:
                     eng.send(f"position fen {fen}"); eng.send(go)
@@ -137,7 +137,14 @@ def run(ctx):
         chunk = pos[i * jobs_per:(i + 1) * jobs_per]
         if not chunk: continue
         slow = "MaxNPS" in o or "UCI_LimitStrength" in o or o.get("Strength", 1000) < 1000
-        jobs = [(f, go_cmd(r, legal, slow)) for f, legal in chunk]
+        jobs = []
+        for f, legal in chunk:
+            jobs.append((f, go_cmd(r, legal, slow)))
+            if legal and len(legal) >= 2 and r.random() < 0.2:
+                # a second search of the same root in the same process (warm table, previous best move known to the engine), cut off at
+                # once and restricted to other moves: whatever the engine remembers must not leak past the restriction
+                k = r.randrange(1, min(3, len(legal) - 1) + 1)
+                jobs.append((f, r.choice(["go nodes 1", "go nodes 2", "go depth 1", "go infinite"]) + " searchmoves " + " ".join(r.sample(legal, k))))
         sessions.append(("plain", nets[i % len(nets)], o, jobs, None))
     with cf.ThreadPoolExecutor(max(2, vlib.NCPU // 3)) as ex:
         allrecs = [x for rs in ex.map(session, sessions) for x in rs]
